@@ -23,6 +23,10 @@ Inductive ltag :=
 | TEofSignal            (* transport.go bodyEOFSignal (h1, responses with a body) *)
 | TGzipH1               (* transport.go gzipReader; its body field is the *bodyEOFSignal *)
 | TCompress (e : enc)   (* internal/compress {Gzip,Deflate,Brotli,Zstd}Reader *)
+| TEndChecked           (* internal/compress endChecked (withMessageEnd): what New*Reader return since 4cfb689;
+                           its dec field is the reader above *)
+| TTracked              (* internal/compress trackedBody: put between the decoder and its body by endChecked's
+                           first Read *)
 | TCallback             (* middleware.go callbackReader (download callback) *)
 | TCharset              (* decode.go decodeReaderCloser: charset named in Content-Type *)
 | TAutoDecode           (* decode.go autoDecodeReadCloser: charset sniffed from the body *)
@@ -65,11 +69,19 @@ Record tcfg := {
   t_auto : bool        (* Options.AutoDecompression *)
 }.
 
+(* compress.New*Reader(body) = withMessageEnd(&XReader{Body: body}); transport.go's own gzipReader
+   (h1, transport asked for gzip) is not wrapped *)
+Definition mk_dec (t : ltag) (under : layer) : layer :=
+  match t with
+  | TCompress _ => Wrap TEndChecked (Some (Wrap t (Some under)))
+  | _ => Wrap t (Some under)
+  end.
+
 Definition on_top (a : action) (under : layer) (gz : ltag) : body :=
   match a with
   | Untouched => Some under
-  | Gunzip => Some (Wrap gz (Some under))
-  | Decompress e => Some (Wrap (TCompress e) (Some under))
+  | Gunzip => Some (mk_dec gz under)
+  | Decompress e => Some (mk_dec (TCompress e) under)
   end.
 
 Definition transport_body (st : stack) (c : tcfg) (ce : bytes) : body :=
@@ -119,6 +131,10 @@ Definition wrap_cb (b : body) : body :=
       Some (Wrap TGzipH1 (Some (Wrap TEofSignal (Some (Wrap TCallback x)))))
   | Some (Wrap TGzipH1 _) => None     (* b.body is not a live *bodyEOFSignal: Go would fault here *)
   | Some (Wrap (TCompress e) x) => Some (Wrap (TCompress e) (Some (Wrap TCallback x)))
+  (* endChecked is a CompressReader too; before the first Read its Get/SetUnderlyingBody go to the decoder *)
+  | Some (Wrap TEndChecked (Some (Wrap (TCompress e) x))) =>
+      Some (Wrap TEndChecked (Some (Wrap (TCompress e) (Some (Wrap TCallback x)))))
+  | Some (Wrap TEndChecked _) => None  (* e.dec is not a live decoder: Go would fault here *)
   | _ => Some (Wrap TCallback b)
   end.
 
@@ -210,6 +226,23 @@ Definition pipeline (st : stack) (c : tcfg) (p : pcfg) (guard ce ct : bytes) (o 
 
 Definition pipeline_pinned (st : stack) (c : tcfg) (p : pcfg) (guard ce ct : bytes) (o : ct_oracle) : body :=
   handle_response_body p guard ct o (transport_body_pinned st c ce).
+
+(* ---------- the first Read on the body ---------- *)
+
+(* endChecked.Read, first call: e.tb = &trackedBody{body: e.dec.GetUnderlyingBody()};
+   e.dec.SetUnderlyingBody(e.tb) - wherever the endChecked sits in the stack *)
+Fixpoint first_read_layer (l : layer) : layer :=
+  match l with
+  | Base => Base
+  | Wrap TEndChecked (Some (Wrap (TCompress e) x)) =>
+      Wrap TEndChecked (Some (Wrap (TCompress e) (Some (Wrap TTracked
+        (match x with Some l' => Some (first_read_layer l') | None => None end)))))
+  | Wrap t (Some l') => Wrap t (Some (first_read_layer l'))
+  | Wrap t None => Wrap t None
+  end.
+
+Definition after_first_read (b : body) : body :=
+  match b with Some l => Some (first_read_layer l) | None => None end.
 
 (* does a content-transforming layer sit in the stack (the bytes the caller reads are then not
    the framing-level bytes)? *)
